@@ -384,6 +384,27 @@ func init() {
 			case "(*strings.Builder).WriteRune", "(*strings.Builder).WriteByte":
 				wrote = append(wrote, "sep:"+e.X(rk, c.Call.Args[1]))
 				o.Check(e.X(rk, c.Call.Args[1]) == "47", "rk-shape", "the only separator of a route key is '/', writes "+e.X(rk, c.Call.Args[1]), in)
+			case "strings.Join":
+				// the components collected in a list and joined: every element is the matcher string of a
+				// route on the parent chain, the separator is '/'
+				o.Check(e.X(rk, c.Call.Args[1]) == `"/"`, "rk-shape", "the only separator of a route key is '/', joins with "+e.X(rk, c.Call.Args[1]), in)
+				_, parts := e.AppendParts(c.Call.Args[0])
+				o.Check(len(parts) >= 1, "rk-shape", "the joined route key components are not collected by appending: "+clip(e.X(rk, c.Call.Args[0])), in)
+				for _, p := range parts {
+					wrote = append(wrote, "elem:"+clip(e.X(rk, p.V)))
+					sc, isC := p.V.(*ssa.Call)
+					if !o.Check(!p.Spread && isC && calleeName(&sc.Call) == "(am/pkg/labels.Matchers).String", "rk-shape", "a route key component is not a matcher string: "+clip(e.X(rk, p.V)), p.Call) {
+						continue
+					}
+					okc, own := onChain(sc.Call.Args[0])
+					o.Check(okc, "rk-shape", "a route key component is the matcher string of something that is not on this route's parent chain: "+e.X(rk, sc), sc)
+					if l := e.LoopOf(p.Call); l != nil {
+						o.Check(!loopBackWithout(o, l, IsInstr(p.Call), nil), "rk-shape", "a route on the parent chain can be left out of the key", p.Call)
+					}
+					if own {
+						ownSeen = true
+					}
+				}
 			case "(*strings.Builder).WriteString":
 				wrote = append(wrote, e.X(rk, c.Call.Args[1]))
 				// what is written comes from Matchers.String() of a route on the parent chain, or from the parent's Key()
